@@ -7,6 +7,7 @@ R1 cached-block identity (typestate on two coupled fields): if reader_iter_seek 
 R2 flag paths of reader_iter_seek / reader_iter_next (valid / first).
 R3 needs_index_seek decision table.
 R4 in-block seek from the current position (T-cmp rows 8, 10) - shared with C02.R4.
+R5 dispatch wiring (rules/dispatch.py): the mtbl_iter / mtbl_source function tables are registered, called (own closure, own slot, parameters forwarded in order) and filled at every construction site without cross-wiring slots of equal signature.
 """
 import re
 from .common import *
@@ -272,6 +273,10 @@ def run(ctx, res):
     blockseek.check(ctx, res, "C03.R4s", "C03.R4")
     res.floor("C03.R4", 5)
 
+
+    # ---- dispatch wiring --------------------------------------------------------------------------
+    from . import dispatch
+    dispatch.check(ctx, res, "C03.R5")
 
 def _callee_couples(prog, cg, callee, pidx):
     """In `callee`, every path that loads a block with offset X also stores X through parameter pidx."""
